@@ -590,7 +590,6 @@ def plan(exp, tier):
     p.assumptions += ['binary_search_point: the generic sample iterator I is instantiated at Vec<(R, Point<R>)> (Verus needs the iterator\'s specification); '
                       'partial correctness only (no decreases clause on the refinement loop)',
                       'binary_search_point_by_steps: Range::map is outside the Verus subset; its hand-over to binary_search_point is checked by Kani (bounded: steps <= 6) on f32 curves']
-    p.not_decided += ['cubic extremality (no point of the cubic on [0,1] lies beyond evaluate(min/max)): the parameters are proved to lie in [0,1] and the reported inflections to be zeros of the derivative in (0,1); the min/max selection is contracted by cases but its extremality theorem is not discharged',
-                      'termination of binary_search_point (the unchanged code does not terminate for steps = 0: the half interval is 1/0)',
+    p.not_decided += ['termination of binary_search_point (the unchanged code does not terminate for steps = 0: the half interval is 1/0)',
                       'inputs inside the tolerance bands 0 < |q| <= epsilon of the tested quantities (stated as a precondition of the theorems)']
     return p
